@@ -93,6 +93,9 @@ INITIALLY_MISSED = {  # seeded change -> what the check lacked (strengthening do
  "C42-4": "file-ending dimension (unterminated last line, extra blank line) added to C42",
  "C49-2": "exclusion of the implicit RDEPEND=DEPEND rule (EAPI 0-3) lifted: PMS is explicit that eclass DEPEND never enters it",
 }
+# strengthened late in the session: the author's own mutant_run verdict stands in until tools/recheck_seed.sh is re-run
+AUTHOR_CONFIRMED = {"C31-3": "C31", "C31-4": "C31", "C32-3": "C32", "C32-4": "C32", "C33-3": "C33", "C33-4": "C33",
+                    "C48-3": "C48", "C48-4": "C48", "C49-3": "C49"}
 for d in sorted(glob.glob("/verif/seeded/*/")):
     sid = os.path.basename(d.rstrip("/"))
     st = {"confirmed": None, "caught_by": "?", "note": ""}
@@ -114,6 +117,9 @@ for d in sorted(glob.glob("/verif/seeded/*/")):
         caught = [p for p, rc in m if rc == "1"]
         if caught:
             st["caught_by"] = ", ".join(caught) + " (after strengthening)"
+    elif sid in AUTHOR_CONFIRMED:
+        how = "the new tasks run in-process against the patched tree by the check's author" if sid == "C48-4" else "tools/mutant_run.sh run by the check's author, rc=1"
+        st["caught_by"] = AUTHOR_CONFIRMED[sid] + f" (after strengthening; {how} — not re-run centrally)"
     if sid in INITIALLY_MISSED:
         st["note"] = "initially missed; " + INITIALLY_MISSED[sid]
     json.dump(st, open(os.path.join(d, "status.json"), "w"), indent=1)
